@@ -69,6 +69,8 @@ struct Plan {
     rereads: usize,
     scripts: Vec<Script>,
     phase: &'static str,
+    /// the process is out of file descriptors when the library duplicates the socket for its watchdog
+    fd_exhausted: bool,
 }
 
 const CONNECT_LAT: u64 = NS_PER_MS;
@@ -149,6 +151,7 @@ fn gen(g: &mut G, thorough: bool) -> Plan {
         rereads: 0,
         scripts: Vec::new(),
         phase: "",
+        fd_exhausted: false,
     };
     if p.route == Route::Plain && matches!(fam, Family::NoFalseTimeout | Family::Stall | Family::Drip) && g.chance(1, 6) {
         p.host_v6 = true;
@@ -189,6 +192,14 @@ fn gen(g: &mut G, thorough: bool) -> Plan {
                 g.probe("caller-reads-again-after-the-deadline");
             }
             p.phase = "complete";
+            // a failing system call in the set-up of the watchdog (drawn last): the request fails at once
+            // and leaves nothing behind
+            if p.route == Route::Plain && p.t_ms.is_some() && g.chance(1, 16) {
+                p.fd_exhausted = true;
+                p.body.faults.clone_fails = true;
+                p.phase = "socket-clone-fails";
+                g.probe("socket-clone-fails-while-setting-up-the-watchdog");
+            }
         }
         Family::Stall | Family::Drip => {
             // T alone, R alone or both
@@ -661,6 +672,14 @@ fn oracle(p: &Plan, o: &Obs, h: &History, seen: &Seen, g: &mut G) -> Verdict {
                 );
             }
         }
+    }
+    if p.fd_exhausted {
+        let send = &o.calls[0];
+        return match &send.res {
+            Ok(_) => violation("succeeded-without-a-watchdog", "send() returned Ok although the socket could not be duplicated for the deadline watchdog"),
+            Err(_) if send.t_out > send.t_in + connect_latency_within(h, send.t_in, send.t_out) => violation("failed-system-call-waited", format!("send() took {} ms to report the failed system call", (send.t_out - send.t_in) / NS_PER_MS)),
+            Err(_) => Verdict::Pass,
+        };
     }
     match p.fam {
         Family::NoFalseTimeout => {
